@@ -350,6 +350,11 @@ def run_case(case, ctx):
         vin.setflags(write=False)
     elif present == "int-dtype" and np.all(v == np.round(v)) and float(np.max(np.abs(v), initial=0)) < 1e6:
         vin = v.astype(np.int64 if rs.rand() < 0.7 else np.int32)
+        if np.all(v >= 0) and rs.rand() < 0.5:
+            # counts / image columns: unsigned storage, where a difference taken in the input's own dtype wraps around
+            ok_ = [t for t in (np.uint8, np.uint16, np.uint32, np.uint64) if float(np.max(v, initial=0)) <= np.iinfo(t).max]
+            vin = v.astype(ok_[int(rs.randint(len(ok_)))])
+            present = "uint-dtype"
     else:
         present = "C"
     desc["presented_as"] = present
